@@ -39,7 +39,13 @@ types in key position (not Michelson types there; `to_python_object(comparable=T
 on any new leaf (a signature keeps its text: the prefix only disappears in the optimized MICHELINE form, which is
 C11's `binNorm`, not this conversion).  The alternative INPUT forms (`from_python_object` only; they are not in the
 image of `to_python_object`) have their own theorems: `timestamp_text_meaning`, `address_default_stripped`,
-`mutez_decimal_exact`, and kernel-evaluated examples for hex text and the 28-digit context rounding. -/
+`mutez_decimal_exact`, and kernel-evaluated examples for hex text and the 28-digit context rounding.
+
+Extensions 2 and 3 add two hypotheses to the round-trip theorems, and nothing else: `ht : c.tryUnpack = false` — the
+call the property is about is `to_python_object()`; with `try_unpack=True` the conversion is a display mode that is
+inherently not invertible (`try_unpack_counterexample`) — and `hl : CodeLaw c` — the Michelson source text of a lambda
+body reads back as that body, C18's property, taken as a parameter with its law (the only law assumed).  `ticket t`
+(↔ `(ticketer, contents, amount)`) and `lambda` (↔ source text) are ordinary cases of the induction. -/
 namespace C12
 open Impl.PyConv Spec.PyConv
 
@@ -58,25 +64,28 @@ theorem cfg_unit {c : Cfg} (hc : cfg? = some c.toFlags) : c.unitHashable = true 
 
 /-- the round trip, all invertible types, all values; `…_partial`: the full statement (no guard) is false, see the
 counter-examples below -/
-theorem ofPy_toPy_partial (c : Cfg) (hc : cfg? = some c.toFlags) (ht : c.tryUnpack = false) (τ : Ty) (v : Val)
+theorem ofPy_toPy_partial (c : Cfg) (hc : cfg? = some c.toFlags) (ht : c.tryUnpack = false)
+    (hl : CodeLaw c) (τ : Ty) (v : Val)
     (hτ : PyInvertible c τ) (hv : HasTy c τ v) :
     (toPy c false τ v).bind (ofPy c τ) = .ok v := by
-  obtain ⟨py, h1, h2, _, _⟩ := (roundtrip_all c (cfg_unit hc) ht τ).1 false v hτ hv
+  obtain ⟨py, h1, h2, _, _⟩ := (roundtrip_all c (cfg_unit hc) ht hl τ).1 false v hτ hv
   rw [h1]; exact h2
 
 /-- the same for the rendering of map keys / set elements (`comparable=True`: pairs as tuples, unions as
 `(name, value)`), and the object is hashable -/
-theorem ofPy_toPy_key_partial (c : Cfg) (hc : cfg? = some c.toFlags) (ht : c.tryUnpack = false) (τ : Ty) (v : Val)
+theorem ofPy_toPy_key_partial (c : Cfg) (hc : cfg? = some c.toFlags) (ht : c.tryUnpack = false)
+    (hl : CodeLaw c) (τ : Ty) (v : Val)
     (hτ : inv c true τ = true) (hv : HasTy c τ v) :
     ∃ py, toPy c true τ v = .ok py ∧ ofPy c τ py = .ok v ∧ py.hashable c = true := by
-  obtain ⟨py, h1, h2, h3, _⟩ := (roundtrip_all c (cfg_unit hc) ht τ).1 true v hτ hv
+  obtain ⟨py, h1, h2, h3, _⟩ := (roundtrip_all c (cfg_unit hc) ht hl τ).1 true v hτ hv
   exact ⟨py, h1, h2, h3 rfl⟩
 
 /-- different values have different Python objects -/
-theorem toPy_injective_partial (c : Cfg) (hc : cfg? = some c.toFlags) (ht : c.tryUnpack = false) (τ : Ty) (u v : Val)
+theorem toPy_injective_partial (c : Cfg) (hc : cfg? = some c.toFlags) (ht : c.tryUnpack = false)
+    (hl : CodeLaw c) (τ : Ty) (u v : Val)
     (hτ : PyInvertible c τ) (hu : HasTy c τ u) (hv : HasTy c τ v) (h : toPy c false τ u = toPy c false τ v) : u = v := by
-  have h1 := ofPy_toPy_partial c hc ht τ u hτ hu
-  have h2 := ofPy_toPy_partial c hc ht τ v hτ hv
+  have h1 := ofPy_toPy_partial c hc ht hl τ u hτ hu
+  have h2 := ofPy_toPy_partial c hc ht hl τ v hτ hv
   rw [h] at h1
   rw [h1] at h2
   exact Except.ok.inj h2
@@ -108,22 +117,23 @@ theorem field_names_unchanged_without_collision (flat : List (Path × Ty)) (infe
 
 /-- field names are stable: the layout is a function of the type alone (`pairLayout τ`), and the record every value
 of a named pair converts to has exactly the layout's names as keys, in the layout's order -/
-theorem layout_stable (c : Cfg) (hc : cfg? = some c.toFlags) (ht : c.tryUnpack = false) (a : Ann) (l r : Ty) (v : Val)
+theorem layout_stable (c : Cfg) (hc : cfg? = some c.toFlags) (ht : c.tryUnpack = false)
+    (hl : CodeLaw c) (a : Ann) (l r : Ty) (v : Val)
     (hτ : PyInvertible c (.pair a l r)) (hv : HasTy c (.pair a l r) v)
     (p2k : List (Path × String)) (hm : (pairLayout (.pair a l r)).pathToKey = some p2k) :
     ∃ fields, toPy c false (.pair a l r) v = .ok (.record fields) ∧ fields.map (·.1) = p2k.map (·.2) :=
-  pair_record_keys c (cfg_unit hc) ht a l r v hτ hv p2k hm
+  pair_record_keys c (cfg_unit hc) ht hl a l r v hτ hv p2k hm
 
 /-- `ContractData.decode` / `encode` are mutual inverses (given that the Micheline coding of values round-trips,
 which is C11): decoding the Micheline form of `v` gives an object whose encoding is that Micheline form again, and
 decoding that gives the same object -/
 theorem encode_decode_inverse {M : Type} (k : Codec M) (c : Cfg) (hc : cfg? = some c.toFlags) (ht : c.tryUnpack = false)
-    (τ : Ty) (v : Val)
+    (hl : CodeLaw c) (τ : Ty) (v : Val)
     (hk : k.ofMich τ (k.toMich τ v) = .ok v) (hτ : PyInvertible c τ) (hv : HasTy c τ v) :
     ∃ py, decode k c τ (k.toMich τ v) = .ok py
       ∧ encode k c τ py = .ok (k.toMich τ v)
       ∧ (encode k c τ py).bind (decode k c τ) = .ok py := by
-  obtain ⟨py, h1, h2, _, _⟩ := (roundtrip_all c (cfg_unit hc) ht τ).1 false v hτ hv
+  obtain ⟨py, h1, h2, _, _⟩ := (roundtrip_all c (cfg_unit hc) ht hl τ).1 false v hτ hv
   refine ⟨py, by simp [decode, hk, Except.bind, h1], by simp [encode, h2, Except.map], ?_⟩
   simp [encode, decode, h2, Except.map, Except.bind, hk, h1]
 
@@ -310,6 +320,52 @@ theorem not_comparable_counterexample :
     ∧ inv cfgNow false (.map {} (.scalar {} .blsG1) natT) = false
     ∧ inv cfgNow false (.list {} (.contract {} natT)) = true := by
   decide +kernel
+
+/-! ### ticket and lambda
+
+`ticket t` ↔ `(ticketer, contents, amount)` with the contents in the key rendering (`comparable=True`); `lambda` ↔ its
+Michelson source text.  Formatting / parsing source text is C18's: `c.codeText` / `c.codeOfText` are parameters and
+the law `CodeLaw c` (the text of a body reads back as that body) is the hypothesis `hl` of the theorems above. -/
+
+/-- a configuration in which `KT1A` is an address and the body `[{"prim":"DUP"}]` has the text `{ DUP }` -/
+def cfgCode : Cfg :=
+  { unitHashable := true, pairLtLex := true, frModulus := frModulus
+    valid := fun d s => d == .address && (partitionPct s).1 == "KT1A"
+    codeText := fun code => if code == "[{\"prim\":\"DUP\"}]" then "{ DUP }" else "{}"
+    codeOfText := fun s => if s == "{ DUP }" then some "[{\"prim\":\"DUP\"}]" else if s == "{}" then some "[]" else none
+    codeOk := fun code => code == "[{\"prim\":\"DUP\"}]" || code == "[]" }
+
+example : CodeLaw cfgCode := by
+  intro code h
+  simp only [cfgCode, Bool.or_eq_true, beq_iff_eq] at h ⊢
+  rcases h with rfl | rfl <;> decide
+
+/-- the shape the pinned `TicketType.from_python_object` could not take back (it read the object as a value of
+`pair address (pair t nat)`, whose layout flattens an unnamed pair `t`): `ticket (pair nat nat)` round-trips in the
+repaired shape the mirror follows; a ticket is refused as a key -/
+theorem ticket_of_pair_roundtrip :
+    okPy (toPy cfgCode false (.ticket {} (.pair {} natT natT)) (.ticket "KT1A" (.pair (.int 1) (.int 2)) 10))
+        (.tuple [.str "KT1A", .tuple [.int 1, .int 2], .int 10]) = true
+    ∧ okVal (ofPy cfgCode (.ticket {} (.pair {} natT natT)) (.tuple [.str "KT1A", .tuple [.int 1, .int 2], .int 10]))
+        (.ticket "KT1A" (.pair (.int 1) (.int 2)) 10) = true
+    ∧ inv cfgCode false (.ticket {} (.pair {} natT natT)) = true
+    ∧ inv cfgCode true (.ticket {} natT) = false
+    ∧ isErr (ofPy cfgCode (.ticket {} natT) (.tuple [.str "KT1A", .int 1, .int (-1)])) .assertion = true
+    ∧ isErr (ofPy cfgCode (.ticket {} natT) (.tuple [.str "tz1B", .int 1, .int 1])) .assertion = true
+    ∧ isErr (ofPy cfgCode (.ticket {} natT) (.tuple [.str "KT1A", .int 1])) .assertion = true := by
+  decide +kernel
+
+def vaultT : Ty :=
+  .pair {} (.list { field := some "tickets" } (.ticket {} (.or {} (.scalar { field := some "ft" } .nat) (.scalar { field := some "nft" } .bytes))))
+    (.lambda { field := some "hook" } natT natT)
+def vaultV : Val := .pair (.list [.ticket "KT1A%mint" (.left (.int 7)) 3, .ticket "KT1A" (.right (.bytes [1])) 0]) (.lambda "[{\"prim\":\"DUP\"}]")
+
+example : PyInvertible cfgCode vaultT := by decide +kernel
+example : okPy (toPy cfgCode false vaultT vaultV)
+    (.record [("tickets", .list [.tuple [.str "KT1A%mint", .tuple [.str "ft", .int 7], .int 3],
+                                 .tuple [.str "KT1A", .tuple [.str "nft", .bytes [1]], .int 0]]),
+              ("hook", .str "{ DUP }")]) = true := by decide +kernel
+example : okVal ((toPy cfgCode false vaultT vaultV).bind (ofPy cfgCode vaultT)) vaultV = true := by decide +kernel
 
 /-! ### non-vacuity for the base58 leaves: a configuration in which some texts are valid -/
 
